@@ -84,7 +84,7 @@ CLAIMED = {
              "error leaving the whole state unchanged; a failed finalize also leaves finalized set (no second header). Statistics: frame counts are the queue lengths, bytes = previous count + total "
              "chunk length, duration = maxEndPts/90000 where maxEndPts is proved to be the maximum over all samples of pts + duration; the rounding clause: for every maxEndPts below 2^53 ticks the double "
              "`maxEndPts as f64 / 90000.0` (soft-float model), read back as ticks, is within one tick of maxEndPts (C06_duration_within_one_tick: exactness of the integer conversion, half-unit rounding of the division, "
-             "exponent <= -16), with a kernel-checked counterexample beyond 2^53 (the recorded finding). Correspondence with a recording sink tagging bytes per call.",
+             "exponent <= -16), with a kernel-checked counterexample beyond 2^53 (the recorded finding). Correspondence with a recording sink tagging bytes per call. Mp4Writer::max_end_pts (with track_end) is TRANSLATED from src/muxer/mp4.rs on every run (tools/rs2lean_stats.py) and proved equal to the model's maxEndPts (Props/C06Generated.lean).",
         note=TB + "Found and fixed in /repo: duration used the last sample in decode order (too short for reordered streams). Known finding stats-duration-f64-precision: an f64 of seconds cannot be within one tick beyond 2^53 ticks.",
         technique="Lean 4 proof (state-machine lemmas, max over fold) + correspondence check",
         ref="DESIGN.md section 5 C06"),
